@@ -102,15 +102,13 @@ def r3(repo, run):
     pass    # decided together with R2 by include_table (one evaluation covers lookup order, first match and missing files)
 
 
-EXISTS = [
-    {('d1', 'a'), ('d1', 'b')},
-    {('d2', 'a'), ('d2', 'b')},
-    {('d1', 'a'), ('d2', 'a'), ('d1', 'b'), ('d2', 'b')},
-    {('d2', 'a'), ('d1', 'b'), ('d2', 'b')},
-    {('d1', 'a')},
-    {('d2', 'b')},
-    set(),
-]
+def _all_subsets():
+    import itertools
+    cells = [('d1', 'a'), ('d2', 'a'), ('d1', 'b'), ('d2', 'b')]
+    return [set(c) for n in range(len(cells) + 1) for c in itertools.combinations(cells, n)]
+
+
+EXISTS = _all_subsets()      # every way the four candidates (2 names x 2 lookup directories) can exist
 
 
 def include_table(repo, run):
